@@ -21,6 +21,7 @@ man = {
         {"name": "baseclient", "path": "vf/baseclient.py", "serves_properties": ["C11","C12","C13"],
          "kind_free_text": "the four bundled base clients driven directly with generated variables / responses / frame scripts"},
         {"name": "schemagen", "path": "vf/props/c16.py", "serves_properties": ["C16"], "kind_free_text": "ariadne_codegen.main.graphql_schema on generated decorated schemas, generated module executed with runpy"},
+        {"name": "names", "path": "vf/props/c18.py", "serves_properties": ["C18"], "kind_free_text": "process_name laws by enumeration + two-name scope projects through the e2e engine"},
         {"name": "cli", "path": "vf/props/c17.py", "serves_properties": ["C10","C17","C19"],
          "kind_free_text": "subprocess / CliRunner runs of the command with generated projects, hash seeds, histories"},
     ],
